@@ -118,6 +118,8 @@ pub struct Trace {
     pub far_jump: bool,
     pub mod32_zero_upper: bool,
     pub depth_hist: [u32; 10],
+    /// bitset of executed opcodes
+    pub opcodes: [u64; 4],
 }
 
 #[derive(Clone, Copy, Debug, Default)]
@@ -361,6 +363,7 @@ impl<'a> Machine<'a> {
             self.trace.steps += 1;
             self.trace.max_pc = self.trace.max_pc.max(pc);
             let x = self.prog[pc];
+            self.trace.opcodes[(x.opc >> 6) as usize] |= 1u64 << (x.opc & 63);
             let Some(kind) = kind_of(x.opc) else { return MOut::Undefined("not-an-instruction") };
             let (d, s) = (x.dst as usize, x.src as usize);
             if d > 10 || s > 10 {
